@@ -420,6 +420,9 @@ def body_harvested(case):
         keep2[np.where(hm2)[0][np.asarray(h.volume_mask)]] = True
         beta2 = np.full(len(pick), np.nan)
         beta2[keep2] = np.asarray(h.beta_rad())
+    nad, nad2 = np.asarray(g.sourceNadRad, dtype=float)[pick], np.asarray(h.sourceNadRad, dtype=float)
+    badn = np.where(~(np.abs(nad - nad2) <= 1e-9))[0]
+    require(badn.size == 0, f"the source nadir angle of instant {int(pick[badn[0]]) if badn.size else -1} of a {N}-instant throw is {nad[badn[:1]].tolist()}, thrown among {len(pick)} explicit instants {nad2[badn[:1]].tolist()} (a block of the {N} instants is skipped or mis-indexed)")
     bad = np.where(keep[pick] != keep2)[0]
     require(bad.size == 0, f"instant {int(pick[bad[0]]) if bad.size else -1} of a {N}-instant throw is {'kept' if bad.size and keep[pick][bad[0]] else 'dropped'}; thrown among {len(pick)} explicit instants it is not (a block of the {N} instants is skipped or mis-indexed)")
     both = keep2
